@@ -60,6 +60,17 @@ theorem async_try_generated (σ : World) (parent : Option String) (p : Input) (k
     (hs : SupportedAT p kind) (hgen : gen p kind = .ok code) :
     evalCode σ parent code = specRunAT σ parent p kind := async_try_refines σ parent p kind code hs hgen
 
+/-- …and from the tokens the caller wrote: whatever the parser accepts (any behaviour of syn) under an async try macro
+    with default options expands to code that is the async-try reference loop of what was parsed. -/
+theorem accepted_async_try (o : Oracle) (toks : Toks) (σ : World) (parent : Option String) (p : Input) (kind : Kind)
+    (code : Code) (hparse : parseMacroInput o toks = .ok p) (hj : p.joiner = none) (hl : p.lazy = none)
+    (hnames : (p.branches.filterMap fun b => b.pat.map (·.ident)).Nodup) (ha : kind.isAsync = true)
+    (ht : kind.isTry = true) (htr : p.transpose ≠ some true) (hgen : gen p kind = .ok code) :
+    evalCode σ parent code = specRunAT σ parent p kind :=
+  async_try_refines σ parent p kind code
+    { noJoiner := hj, noLazy := hl, namesNodup := hnames, firstInitial := parse_first_initial o toks p hparse,
+      isAsync := ha, isTry := ht, transposeDefault := htr } hgen
+
 /-- **C05/C06 for the async try macros**: when the loop fails with `v`, `v` is not a success, it is — unchanged — what a
     chain returned, and the end of that chain is the *last* event of the loop: nothing of a later step is evaluated and
     no chain behind it in its own step runs (`try_join!` returns at once); by `handler_not_called_on_failure` no handler
